@@ -336,7 +336,7 @@ theorem new_best_child_sees_step_locals (dones : Dones) (id nc nt : Nat) (after 
   subst hafter
   have hpop : x.pop.1 = m := by simp [Ext.pop, hx]
   simp [Cb.call, evalDue, isNewBest]
-  cases h : !st.contains (lnc + 1) <;> simp_all
+  cases h : !st.contains (lnc + 1) <;> simp_all [Nat.mod_one]
 
 /-! ### Non-vacuity: concrete, non-trivial instances -/
 
